@@ -223,15 +223,19 @@ class _MCQuad(torch.autograd.Function):
         else:
             fptensor_params_copy = [y.detach().requires_grad_() for y in fptensor_params]
 
-        aug_epfs = _mcquad(aug_function, log_pfcn,
-                           x0=xsamples[0],  # unused because xsamples is set
-                           xsamples=xsamples,
-                           wsamples=wsamples,
-                           fparams=(grad_epf, epf, *fptensor_params_copy),
-                           pparams=pparams,
-                           method=ctx.method,
-                           bck_options=ctx.bck_config,
-                           **ctx.bck_config)
+        # the nested call reads the object parameters of log p from the object:
+        # install the tensors of the forward pass while it is set up (the object
+        # may hold other tensors by now, e.g. inside an enclosing backward pass)
+        with log_pfcn.useobjparams(pobjparams):
+            aug_epfs = _mcquad(aug_function, log_pfcn,
+                               x0=xsamples[0],  # unused because xsamples is set
+                               xsamples=xsamples,
+                               wsamples=wsamples,
+                               fparams=(grad_epf, epf, *fptensor_params_copy),
+                               pparams=pparams,
+                               method=ctx.method,
+                               bck_options=ctx.bck_config,
+                               **ctx.bck_config)
         dLdthetaf = aug_epfs[:nftensorparams]
         dLdthetap = aug_epfs[nftensorparams:]
 
@@ -247,6 +251,8 @@ def _grad_or_zeros(out, params, grad_outputs, create_graph):
     # gradient of out w.r.t. params; the tensors that do not enter out get zeros
     # instead of an error
     if not out.requires_grad:
+        if torch.is_inference_mode_enabled():
+            raise RuntimeError("mcquad cannot be differentiated in inference mode")
         return tuple(torch.zeros_like(p) for p in params)
     grads = torch.autograd.grad(out, params, grad_outputs=grad_outputs,
                                 retain_graph=True, create_graph=create_graph,
